@@ -25,7 +25,9 @@ THEOREMS = {
         "MG.Eng.write_frames_disjoint_window",
     ],
     "MG.Proofs.Lemmas.InPlaceRefine": [
+        "MG.C04R.inplace_on_owner_refines_numpy_general",
         "MG.C04R.inplace_on_owner_refines_numpy",
+        "MG.C04R.wrap_vals",
         "MG.C04R.mutate_single_eq",
         "MG.C04R.finalH_spec",
         "MG.C04R.opStepOut_tensors",
@@ -396,10 +398,10 @@ MANIFEST = {
             "disjoint from it unchanged (read_write_same, write_frames_*); C-order ravel/unravel are inverse, a "
             "contiguous window addresses its buffer in order, a fresh array reads back its values, and a "
             "Fortran-ordered array is the .T of the C-ordered array of the reversed shape (fortran_is_transposed_c). End to end, for the whole _in_place_op of the model on a tensor that owns C-contiguous memory and has no live "
-            "views, with any tensor operands (itself included) and any kernel: if the NumPy-level statement yields `vals` "
+            "views, with any operands (tensors, itself included, and literals — ndarrays / Python scalars) and any kernel: if the NumPy-level statement yields `vals` "
             "then the update succeeds and the same tensor id reads `vals`, keeps its flag and owns its memory, no buffer "
             "that existed before is written and every other tensor keeps its array and flag "
-            "(inplace_on_owner_refines_numpy, via the closed form finalH of the result heap). "
+            "(inplace_on_owner_refines_numpy_general, via the closed form finalHL of the result heap). "
             "The direct oracle executes the same statements on plain ndarrays.",
     "note": "Trusted: Lean kernel, standard axioms, the correspondence harness; Owner tensors are C- or "
             "Fortran-ordered; np.copy's 'K' layout is modelled and tied to NumPy; the 'K'-order *result* layout of element-wise "
